@@ -494,6 +494,9 @@ pub fn run(tier: &str) -> i32 {
     rep.assume("duplicates and rows of unacknowledged writes are allowed; rows whose write returned Err are not required; faults are injected into chunk uploads and register_chunk, before or after the effect");
     let mut seen = BTreeSet::new();
     for (p, bounds) in plans(tier) {
+        if !scenario_selected(&p.name) {
+            continue;
+        }
         let cfg = ExploreConfig { bounds, use_cache: false, wall_cap: Duration::from_secs(if tier == "thorough" { 1200 } else { 60 }), max_steps: 500, ..Default::default() };
         let st = explore(factory(p.clone()), &cfg);
         for k in st.flags.keys() {
